@@ -28,8 +28,13 @@ def programs(t):
                 lines.append(line(f, T(rep, e), tag, 'VIA_CONVERT'))
                 if rep[0] == 'i':
                     lines.append(line(f, T(rep, e), tag, 'VIA_CTOR'))
+        # class-type integer destinations (elastic_integer, overflow_integer, wide_integer) and scaled_integer over them
+        for f in floats:
+            for d in ['E15', 'E31', 'OVS'] + (['W100'] if t else []):
+                lines.append(line(f, d, tag, 'VIA_CONVERT'))
+            lines.append(line(f, T('E15', -4), tag, 'VIA_CONVERT'))
         # finer scaled -> coarser scaled / integer, and loss-free
-        shifts = [1, 2, 3, 7, 8, 15, 31] if t else [1, 3, 8, 15]
+        shifts = [1, 2, 3, 7, 8, 15, 30] if t else [1, 3, 8, 15]  # < 31: half() converts the int literal 1 through the shift
         for (srep, drep) in ([('i8', 'i8'), ('i16', 'i8'), ('i32', 'i32'), ('i32', 'i16'), ('i64', 'i32'), ('i64', 'i64'), ('u8', 'u8'), ('i32', 'i64')] if not t else
                              [('i8', 'i8'), ('u8', 'u8'), ('i16', 'i8'), ('i16', 'i16'), ('u16', 'u8'), ('i32', 'i32'), ('i32', 'i16'), ('i32', 'i64'), ('i64', 'i32'), ('i64', 'i64'), ('u32', 'u32'), ('u64', 'u64'), ('i8', 'i32')]):
             for sh in shifts:
@@ -37,6 +42,9 @@ def programs(t):
                     continue
                 for se in ([-sh - 1, -20] if not t else [-sh - 1, -sh, -20, -40]):
                     de = se + sh
+                    # `from >= 0` inside the conversion aligns the int 0 to the source exponent: |se| must stay below the promoted digits
+                    if abs(se) >= 31 or abs(de) >= 31:  # the literal 0 is an int
+                        continue
                     lines.append(line(T(srep, se), T(drep, de), tag, 'VIA_CONVERT'))
                     if srep[0] == 'i' and drep[0] == 'i' and sh in (1, 8):
                         lines.append(line(T(srep, se), T(drep, de), tag, 'VIA_CTOR'))
